@@ -144,7 +144,7 @@ KANI_UNITS = [
 ]
 
 MUTANTS = [
-    dict(name="drop_i128_forwarding", file=DE, **{"from": "bool i8 i16 i32 i64 i128 u128 u8", "to": "bool i8 i16 i32 i64 u8"},
+    dict(name="drop_i128_forwarding", file=DE, **{"from": "bool i8 i16 i32 i64 i128 u8 u16 u32 u64 u128 char", "to": "bool i8 i16 i32 i64 u8 u16 u32 u64 char"},
          expect=["C13.K.scalar_roundtrip.i128", "C13.K.scalar_roundtrip.u128"]),
     dict(name="visit_u32_stored_as_i32", file=DE, **{"from": "Ok(Any(Inner::U32(v)))\n    }\n\n    fn visit_u64", "to": "Ok(Any(Inner::I32(v as i32)))\n    }\n\n    fn visit_u64"},
          expect=["C13.K.event_identity.u32"]),
